@@ -168,7 +168,9 @@ def rule_defer(ctx):
         t = trs[0]
         names = [norm(x) for h in t.handlers for x in ((h.type.elts if isinstance(h.type, ast.Tuple) else [h.type]) if h.type else ['*'])]
         h = t.handlers[0]
-        defer = [s for s in h.body if isinstance(s, ast.Assign) and isinstance(s.targets[0], ast.Subscript) and norm(s.targets[0].value) == 'deferred']
+        rr = [r for r in f.own_nodes() if isinstance(r, ast.Return) and isinstance(r.value, ast.Tuple) and isinstance(r.value.elts[0], ast.Name)]
+        dfv = rr[0].value.elts[0].id if len(rr) == 1 else None
+        defer = [s for s in h.body if isinstance(s, ast.Assign) and isinstance(s.targets[0], ast.Subscript) and dfv and norm(s.targets[0].value) == dfv]
         cont = any(isinstance(s, ast.Continue) for s in h.body)
         parent = any('out_pairs' in norm(s) for s in walk_own(t) if isinstance(s, ast.Subscript))
         ok = 'KeyError' in names and len(defer) == 1 and cont and parent
@@ -177,19 +179,25 @@ def rule_defer(ctx):
               'a missing parent (KeyError) does not defer the transaction and continue', loc=ctx.loc(f, f.node))
     n += 1
     rets = [r for r in f.own_nodes() if isinstance(r, ast.Return)]
-    ok2 = len(rets) == 1 and isinstance(rets[0].value, ast.Tuple) and norm(rets[0].value.elts[0]) == 'deferred'
+    ok2 = len(rets) == 1 and isinstance(rets[0].value, ast.Tuple) and isinstance(rets[0].value.elts[0], ast.Name) and \
+        any(isinstance(s, ast.Assign) and norm(s.targets[0]) == rets[0].value.elts[0].id and norm(s.value) == '{}' for s in f.own_nodes())
     ctx.check(ok2, 'C09.DEFER', ctx.key(f, None, 'deferred returned'), 'deferred transactions are returned for another round',
               'deferred transactions are not returned', loc=ctx.loc(f, f.node))
     n += 1
     g = ctx.func('mp', 'MemPool._fetch_and_accept')
-    pv = [s for s in g.own_nodes() if isinstance(s, ast.Assign) and norm(s.targets[0]) == 'prevouts']
-    ok3 = False
-    if len(pv) == 1:
-        gens = [x for x in ast.walk(pv[0].value) if isinstance(x, ast.GeneratorExp)]
-        ok3 = len(gens) == 1 and [norm(i) for i in gens[0].generators[-1].ifs] == [f'prevout[0] not in {g.params[2]}']
     lk = [c for c in q.own_calls(g) if q.callee_name(ctx, g, c) == 'self.api.lookup_utxos']
-    zp = [s for s in g.own_nodes() if isinstance(s, ast.Assign) and norm(s.targets[0]) == 'utxo_map']
-    ok3 = ok3 and len(lk) == 1 and norm(lk[0].args[0]) == 'prevouts' and len(zp) == 1 and 'zip(prevouts, utxos)' in norm(zp[0].value)
+    ok3 = False
+    if len(lk) == 1 and isinstance(lk[0].args[0], ast.Name) and isinstance(q.stmt(lk[0]), ast.Assign):
+        pvn = lk[0].args[0].id
+        resn = norm(q.stmt(lk[0]).targets[0])
+        pv = [s for s in g.own_nodes() if isinstance(s, ast.Assign) and norm(s.targets[0]) == pvn]
+        if len(pv) == 1:
+            gens = [x for x in ast.walk(pv[0].value) if isinstance(x, ast.GeneratorExp)]
+            if len(gens) == 1:
+                last = gens[0].generators[-1]
+                ok3 = [norm(i) for i in last.ifs] == [f'{norm(last.target)}[0] not in {g.params[2]}']
+        zp = [s for s in g.own_nodes() if isinstance(s, ast.Assign) and f'zip({pvn}, {resn})' in norm(s.value)]
+        ok3 = ok3 and len(zp) == 1
     ctx.check(ok3, 'C09.DEFER', ctx.key(g, None, 'lookups aligned'),
               'only prevouts whose parent is not in the listing are looked up, and results are matched back position by position',
               'prevout lookups are not restricted to non-mempool parents / not matched back positionally', loc=ctx.loc(g, g.node))
@@ -217,8 +225,8 @@ def guarded(ctx, f, use, var):
 
 def rule_none(ctx):
     n = 0
-    lu = ctx.func('db', 'DB.lookup_utxos')
-    lo = lu.nested['lookup_utxos'].nested['lookup_utxo']
+    from .roles import lookup_parts
+    lu, _lh, lo, _wh, _wo = lookup_parts(ctx)
     # 1. the value row may have vanished between the two phases
     gets = [s for s in lo.own_nodes() if isinstance(s, ast.Assign) and isinstance(s.value, ast.Call) and isinstance(s.value.func, ast.Attribute)
             and s.value.func.attr == 'get' and ctx.res.type_of(s.value.func.value, lo) == ('store', 'UTXO')]
@@ -247,23 +255,29 @@ def rule_none(ctx):
               'a prevout without a phase-one hit is not answered None first', loc=ctx.loc(lo, lo.node))
     n += 1
     # 3. raw transactions may be missing
-    fa = ctx.func('mp', 'MemPool._fetch_and_accept').nested.get('deserialize_txs')
-    if fa is None:
-        raise AnalysisError('MemPool._fetch_and_accept.deserialize_txs not found')
+    fao = ctx.func('mp', 'MemPool._fetch_and_accept')
+    fas = [x for x in fao.nested.values() if any(isinstance(c, ast.Call) and q.callee_name(ctx, x, c).split('.')[-1] in ('read_tx', 'read_tx_and_size') or
+                                                 (isinstance(c, ast.Call) and isinstance(c.func, ast.Name) and ctx.res.aliases(x).get(c.func.id) is not None
+                                                  and norm(ctx.res.aliases(x)[c.func.id]) == 'read_tx') for c in x.own_nodes())]
+    if len(fas) != 1:
+        raise AnalysisError('MemPool._fetch_and_accept: nested deserialiser not found')
+    fa = fas[0]
     loops = [s for s in fa.own_nodes() if isinstance(s, ast.For)]
     ok = False
     if loops:
         lp = loops[0]
         rv = norm(lp.target.elts[1]) if isinstance(lp.target, ast.Tuple) else None
         reads = [c for c in walk_own(lp) if isinstance(c, ast.Call) and rv and rv in [norm(a) for a in c.args] and norm(c.func) != 'zip']
-        ok = bool(reads) and all(guarded(ctx, fa, r, rv) for r in reads) and norm(lp.iter) == 'zip(hashes, raw_txs)'
+        ok = bool(reads) and all(guarded(ctx, fa, r, rv) for r in reads) and isinstance(lp.iter, ast.Call) and norm(lp.iter.func) == 'zip' \
+            and norm(lp.iter.args[0]) == fao.params[1]
     ctx.check(ok, 'C09.NONE', ctx.key(fa, None, 'raw tx may be missing'),
               'a transaction the daemon no longer returns is skipped before parsing',
               'a missing raw transaction (evicted or mined between listing and fetch) is parsed without a None test', loc=ctx.loc(fa, fa.node))
     n += 1
     # 4. a looked-up pair may be None: falls back to the mempool parent
     acc = ctx.func('mp', 'MemPool._accept_transactions')
-    g = [s for s in acc.own_nodes() if isinstance(s, ast.Assign) and norm(s.value) == 'utxo_map.get(prevout)']
+    g = [s for s in acc.own_nodes() if isinstance(s, ast.Assign) and isinstance(s.value, ast.Call) and isinstance(s.value.func, ast.Attribute)
+         and s.value.func.attr == 'get' and norm(s.value.func.value) == acc.params[2]]
     ok = len(g) == 1
     if ok:
         var = norm(g[0].targets[0])
